@@ -35,6 +35,9 @@ fn main() {
     "loop" => engines::loop_script::main(&rest),
     "loop-replay" => engines::loop_script::replay_main(&rest),
     "tables" => engines::tables::main(&rest),
+    "realloop" => engines::realloop::main(&rest),
+    "realloop-replay" => engines::realloop::replay_main(&rest),
+    "realloop-child" => engines::realloop::child_main(&rest),
     other => {
       eprintln!("unknown engine {}", other);
       2
